@@ -641,13 +641,13 @@ func TestVerif_C02_roots(t *testing.T) {
 					cp = append(make([]cciptypes.Message, 0, len(a.msgs)), a.msgs...)
 				}
 				if a.err {
-					return cp, vErr
+					return cp, vErrNext()
 				}
 				return cp, nil
 			},
 			AddrFn: func(name string, chain cciptypes.ChainSelector) ([]byte, error) {
 				if addrErr[chain] {
-					return nil, vErr
+					return nil, vErrNext()
 				}
 				return addrs[chain], nil
 			},
